@@ -43,7 +43,7 @@ class MaskedChain(AbstractEnv):
 
     def __init__(self, masked: bool):
         self.action_space = Discrete(NA)
-        self.observation_space = Box(0.0, float(NS - 1), shape=())
+        self.observation_space = Box(0.0, float(NS), shape=())
         self.masked = masked
 
     def initial(self, *, key):
@@ -58,7 +58,7 @@ class MaskedChain(AbstractEnv):
         return _CS(jnp.clip(state.s + action - 1 + (action == 2), 0, NS - 1), state.t + 1)
 
     def observation(self, state, *, key):
-        return state.s.astype(jnp.float32)
+        return state.s.astype(jnp.float32) + state.t.astype(jnp.float32) / 16.0      # position, and the clock as a fraction
 
     def reward(self, state, action, next_state, *, key):
         return (next_state.s - state.s).astype(jnp.float32) - 0.25 * (action == 1)
@@ -120,15 +120,18 @@ class StatefulMaskedPolicy(AbstractActorCriticPolicy):
     def action_and_value(self, state, observation, *, key, action_mask=None):
         d, o = self._law(state, observation, action_mask)
         a, lp = d.sample_and_log_prob(key)
-        return _PS(state.n + 1), a, self.V[o], lp
+        return _PS(state.n + 1), a, self._value(state, o), lp
+
+    def _value(self, state, o):
+        return self.V[o] + (0.5 * (state.n % 3).astype(jnp.float32) if self.stateful else 0.0)
 
     def evaluate_action(self, state, observation, action, *, action_mask=None):
         d, o = self._law(state, observation, action_mask)
-        return _PS(state.n + 1), self.V[o], d.log_prob(action), d.entropy()
+        return _PS(state.n + 1), self._value(state, o), d.log_prob(action), d.entropy()
 
     def value(self, state, observation):
         o = jnp.clip(jnp.round(observation).astype(jnp.int32), 0, NS - 1)
-        return state, self.V[o]
+        return state, self._value(state, o)
 
 
 def _keeping(cls):
@@ -199,6 +202,25 @@ def identity_case(algo_name: str, N: int, T: int, masked: bool, stateful: bool, 
         atoms["RecordedMaskForbidsSomethingAndWasHonoured"] = bool((~m).any() and m[np.arange(len(acts)), acts].all())
     if stateful:
         atoms["RolloutSpansSeveralPolicyStates"] = bool(len(set(np.asarray(flat.states.n).astype(int).tolist())) >= 2)
+    # the stored reward of every row, recomputed from the row itself (the chain is deterministic and its observation carries the
+    # clock): the environment's reward, plus gamma * V(successor) on rows ended by truncation only - V as the policy values the
+    # successor observation with the state it carries there (one call after the row's own recorded state)
+    obs = np.asarray(flat.observations, dtype=np.float64)
+    s = np.floor(obs + 1e-6).astype(int)                  # the clock adds at most 6/16 to the position
+    t = np.round((obs - s) * 16).astype(int)
+    a = np.asarray(flat.actions).astype(int)
+    s2 = np.clip(s + a - 1 + (a == 2), 0, NS - 1)
+    r_env = (s2 - s).astype(np.float64) - 0.25 * (a == 1)
+    term, trunc = s2 >= NS - 1, (t + 1) >= 6
+    n_after = np.asarray(flat.states.n).astype(int) + 1
+    Vtab = np.asarray(policy.V, dtype=np.float64)
+    v_succ = Vtab[s2] + (0.5 * (n_after % 3) if stateful else 0.0)
+    gamma = float(algo.gamma)
+    want = r_env + np.where(trunc & ~term, gamma * v_succ, 0.0)
+    got = np.asarray(flat.rewards, dtype=np.float64)
+    atoms["StoredRewardIsEnvRewardPlusDiscountedSuccessorValueOnTruncationOnly"] = bool(np.allclose(got, want, atol=1e-4))
+    atoms["DoneIsTerminalOrTruncated"] = bool(np.array_equal(np.asarray(flat.dones).astype(bool), term | trunc))
+    boots = int(np.sum(trunc & ~term))
     if algo_name == "PPO":
         _, st = PPO.ppo_loss(policy, flat, False, 0.2, False, 0.5, 0.0)
         atoms["OnPolicyApproxKLIsZero"] = bool(abs(float(st.approx_kl)) <= 1e-5)
@@ -214,7 +236,7 @@ def identity_case(algo_name: str, N: int, T: int, masked: bool, stateful: bool, 
         atoms["PolicyTermIsMinusMeanRecordedLogProbTimesAdvantage"] = _close(st.policy_loss, -(stored_lp * adv).mean())
         atoms["TrainingReportsThatPolicyTerm"] = _close(log["policy_loss"], -(stored_lp * adv).mean())
     return dict(ev="identity", kind=f"{algo_name}:N{N}:T{T}:{'masked' if masked else 'unmasked'}:{'stateful' if stateful else 'stateless'}",
-                atoms=atoms, approx_kl=float(log.get("approx_kl", 0.0)))
+                atoms=atoms, approx_kl=float(log.get("approx_kl", 0.0)), truncation_only_rows=boots)
 
 
 # ------------------------------------------------------------------------------------------------ configured learners
